@@ -121,6 +121,7 @@ func runMW(raw json.RawMessage) (interface{}, error) {
 			o.DecodeErr = true
 			return o, nil
 		}
+		observeJSON(c.ID, res)
 		for name, l := range res {
 			lisName = name
 			fm.set(xdsresource.ListenerType, name, l, nil)
@@ -147,6 +148,7 @@ func runMW(raw json.RawMessage) (interface{}, error) {
 		o.DecodeErr = true
 		return o, nil
 	}
+	observeJSON(c.ID, named)
 	if c.FaultNamed != "" {
 		for name := range named {
 			fm.set(xdsresource.RouteConfigType, name, nil, faultErr(c.FaultNamed))
